@@ -856,6 +856,22 @@ class _BetaArgs(ast.NodeTransformer):
             return ast.IfExp(test=copy.deepcopy(tests[len(prefix)]), body=a, orelse=b)
         return ast.copy_location(self.visit(pick([])), n)
 
+    def _merge_comp(self, n):
+        n = self.generic_visit(n)
+        # [E for x in (y for y in IT if C)]  is  [E for x in IT if C[y := x]]
+        g0 = n.generators[0]
+        inner = g0.iter
+        if isinstance(inner, (ast.GeneratorExp, ast.ListComp)) and len(inner.generators) == 1 and \
+                isinstance(inner.elt, ast.Name) and isinstance(inner.generators[0].target, ast.Name) and \
+                inner.elt.id == inner.generators[0].target.id and isinstance(g0.target, ast.Name):
+            ig = inner.generators[0]
+            ren = _Rename({ig.target.id: g0.target.id}, {})
+            g0.iter = ig.iter
+            g0.ifs = [ren.visit(copy.deepcopy(t)) for t in ig.ifs] + list(g0.ifs)
+        return n
+
+    visit_ListComp = visit_SetComp = visit_GeneratorExp = visit_DictComp = _merge_comp
+
     def visit_UnaryOp(self, n):
         n = self.generic_visit(n)
         if isinstance(n.op, ast.Not) and isinstance(n.operand, ast.Constant) and isinstance(n.operand.value, bool):
@@ -1670,6 +1686,50 @@ def tidy_blocks(fn: ast.FunctionDef) -> bool:
                     out += r
                     i += 1
                     continue
+            # an if-chain whose arms only pick constants / rows / functions for the statements that follow: the
+            # statements that follow are read once per arm (arms that leave are left alone)
+            if isinstance(st, ast.If) and i + 1 < len(stmts):
+                arms, cur_ = [], st
+                while True:
+                    arms.append(cur_.body)
+                    if len(cur_.orelse) == 1 and isinstance(cur_.orelse[0], ast.If):
+                        cur_ = cur_.orelse[0]
+                        continue
+                    arms.append(cur_.orelse)
+                    break
+
+                def leaves(a):
+                    return bool(a) and isinstance(a[-1], (ast.Return, ast.Raise, ast.Continue, ast.Break))
+
+                def picks(a):
+                    return bool(a) and all(isinstance(x, ast.Assign) and len(x.targets) == 1 and
+                                           isinstance(x.targets[0], ast.Name) and (
+                                               isinstance(x.value, ast.Constant) or
+                                               (isinstance(x.value, (ast.Tuple, ast.List)) and
+                                                all(_pure_simple(e) for e in x.value.elts)) or
+                                               isinstance(x.value, (ast.Name, ast.Lambda))) for x in a)
+                staying = [a for a in arms if not leaves(a)]
+                rest = stmts[i + 1:]
+                picked = {x.targets[0].id for a in staying for x in a if isinstance(x, ast.Assign) and
+                          len(x.targets) == 1 and isinstance(x.targets[0], ast.Name)}
+                n_rest = sum(1 for r_ in rest for _ in ast.walk(r_) if isinstance(_, ast.stmt))
+                if len(staying) >= 2 and all(picks(a) for a in staying) and len(arms) <= 8 and n_rest <= 12 and \
+                        any(isinstance(y, ast.Name) and y.id in picked for r_ in rest for y in ast.walk(r_)) and \
+                        not getattr(st, '_sunk', False):
+                    def rebuild(node):
+                        nb = node.body if leaves(node.body) else list(node.body) + copy.deepcopy(rest)
+                        if len(node.orelse) == 1 and isinstance(node.orelse[0], ast.If):
+                            no = [rebuild(node.orelse[0])]
+                        else:
+                            no = node.orelse if leaves(node.orelse) else list(node.orelse) + copy.deepcopy(rest)
+                        new_ = ast.copy_location(ast.If(test=node.test, body=nb, orelse=no), node)
+                        new_._sunk = True
+                        return new_
+                    out.append(rebuild(st))
+                    out[-1].body = block(out[-1].body)
+                    out[-1].orelse = block(out[-1].orelse)
+                    changed[0] = True
+                    return out
             # a loop over an empty literal does nothing
             if isinstance(st, ast.For) and isinstance(st.iter, (ast.Tuple, ast.List)) and not st.iter.elts and not st.orelse:
                 changed[0] = True
@@ -1811,6 +1871,8 @@ def propagate_callable_locals(fn: ast.FunctionDef, helper_names) -> bool:
             return callable_value(v.body) and callable_value(v.orelse)
         if isinstance(v, ast.Lambda):
             return True
+        if isinstance(v, ast.Tuple) and v.elts and all(callable_value(e) for e in v.elts):
+            return True       # a row of function values / constants
         if isinstance(v, ast.Constant) and (v.value is None or isinstance(v.value, (bool, str))):
             return True
         if isinstance(v, ast.Call) and isinstance(v.func, ast.Name) and v.func.id == '__no_such_key__':
@@ -1880,12 +1942,21 @@ def propagate_generator_locals(fn: ast.FunctionDef, gen_names) -> bool:
         k = 0
         while k < len(stmts):
             st = stmts[k]
+            is_helper_gen = isinstance(st, ast.Assign) and isinstance(st.value, ast.Call) and \
+                isinstance(st.value.func, ast.Name) and st.value.func.id in gen_names and \
+                all(_pure_simple(a) for a in list(st.value.args) + [kw.value for kw in st.value.keywords])
+            # a generator expression over something cheap to read, consumed exactly once later on
+            is_genexp = isinstance(st, ast.Assign) and isinstance(st.value, ast.GeneratorExp) and \
+                _pure_simple(st.value.generators[0].iter) and len(st.targets) == 1 and \
+                isinstance(st.targets[0], ast.Name) and sum(
+                    1 for y in ast.walk(fn) if isinstance(y, ast.Name) and y.id == st.targets[0].id and
+                    isinstance(y.ctx, ast.Load)) == 1
             if isinstance(st, ast.Assign) and len(st.targets) == 1 and isinstance(st.targets[0], ast.Name) and \
-                    counts.get(st.targets[0].id) == 1 and isinstance(st.value, ast.Call) and \
-                    isinstance(st.value.func, ast.Name) and st.value.func.id in gen_names and \
-                    all(_pure_simple(a) for a in list(st.value.args) + [kw.value for kw in st.value.keywords]):
+                    counts.get(st.targets[0].id) == 1 and (is_helper_gen or is_genexp):
                 x, v = st.targets[0].id, st.value
                 free = {y.id for y in ast.walk(v) if isinstance(y, ast.Name)}
+                if isinstance(v, ast.GeneratorExp):      # its own variables are not free
+                    free -= {y.id for g_ in v.generators for y in ast.walk(g_.target) if isinstance(y, ast.Name)}
                 rest = stmts[k + 1:]
                 if not any(isinstance(y, ast.Name) and isinstance(y.ctx, ast.Store) and y.id in free
                            for r in rest for y in ast.walk(r)):
